@@ -42,3 +42,6 @@ CLAIMS = {
                      "the total; Proxy/Processing/Alphabet callbacks abort for callers other than GAS (Alphabet: or NEO).",
                 note=NOTE, technique=TECH),
 }
+
+for _p in PROPS.values():
+    _p.setdefault("cover_files", ['contracts/neofs/', 'contracts/alphabet/', 'contracts/proxy/', 'contracts/processing/', 'common/vote.go', 'common/ir.go'])
